@@ -27,6 +27,8 @@ import al "lia.bitproto"
 const KONST = 3
 const STR = "s"
 const NEG = 0 - 1
+const FLAG = true
+const OFF = false
 
 enum E : uint3 {
 @ENUM_E@
@@ -118,6 +120,10 @@ add("cap:65535", "top", ["message ZCap {", "    bool[65535] zz = 1", "}"], True)
 add("cap:negative-const", "msg", "bool[NEG] zz = 201", False, only=["t.bitproto"])
 add("cap:non-integer-const", "msg", "bool[STR] zz = 201", False, only=["t.bitproto"])
 add("cap:const", "msg", "bool[KONST] zz = 201", True, only=["t.bitproto"])
+add("cap:bool-const-true", "msg", "bool[FLAG] zz = 201", False, only=["t.bitproto"])
+add("cap:bool-const-false", "msg", "bool[OFF] zz = 201", False, only=["t.bitproto"])
+add("cap:imported-const", "msg", "bool[lib.LK] zz = 201", True, only=["t.bitproto"])
+add("cap:type-as-const", "msg", "bool[E] zz = 201", False, only=["t.bitproto"])
 add("cap:2d", "msg", "bool[2][3] zz = 201", False)
 # --- field numbers
 for n, ok in ((0, False), (255, True), (256, False)):
@@ -189,6 +195,11 @@ add("option:unknown-message", "msg", "option nope = 1", False)
 add("option:wrong-type-message", "msg", 'option max_bytes = "a"', False)
 add("option:wrong-type-file", "top", "option c.name_prefix = 1", False)
 add("option:bool-for-int", "msg", "option max_bytes = true", False)
+add("option:bool-const-for-int", "msg", "option max_bytes = FLAG", False, only=["t.bitproto"])
+add("option:string-const-for-int", "msg", "option max_bytes = STR", False, only=["t.bitproto"])
+add("option:int-const-for-string", "top", "option c.name_prefix = KONST", False, only=["TOP1", "TOP2"])
+add("option:string-const-ok", "top", "option c.name_prefix = STR", True, only=["TOP1", "TOP2"])
+add("option:alignment-const-ok", "top", "option c.struct_packing_alignment = KONST", True, only=["TOP1", "TOP2"])
 add("option:message-option-at-file", "top", "option max_bytes = 3", False)
 add("option:file-option-in-message", "msg", 'option c.name_prefix = "x"', False)
 add("option:known-file", "top", 'option c.name_prefix = "zz_"', True)
@@ -213,6 +224,9 @@ add("constref:defined-later", "top", "const ZX = LATER", False, only=["TOP0", "T
 add("constref:a-type", "top", "const ZX = E", False, only=["TOP1", "TOP2"])
 add("constref:string-in-arithmetic", "top", "const ZX = STR + 1", False, only=["TOP1", "TOP2"])
 add("constref:earlier-ok", "top", "const ZX = KONST * 2 + 1", True, only=["TOP1", "TOP2"])
+add("constref:bool-in-arithmetic", "top", "const ZX = FLAG + 1", False, only=["TOP1", "TOP2"])
+add("constref:bool-alias-ok", "top", "const ZX = FLAG", True, only=["TOP1", "TOP2"])
+add("constref:string-alias-ok", "top", "const ZX = STR", True, only=["TOP1", "TOP2"])
 add("constref:imported-ok", "top", "const ZX = lib.LK + al.AK", True, only=["TOP0", "TOP1", "TOP2"])
 add("constref:option-undefined", "msg", "option max_bytes = ZNOPE", False)
 # --- imports
